@@ -271,7 +271,7 @@ def gen_cases(tier: str, seed: int) -> List[Dict]:
         # literal divisor coefficients (1, -2, ...): the loop is then decided with linear arithmetic only
         add("incomparable", names, spec("d", names, dv, (), 0, lit=1.0), dividend=spec("n", names, de, (), 2, lit=0.0))
     if not quick:
-        for _ in range(40):
+        for _ in range(900):
             names = rng.choice([("q0",), ("q0", "q1")])
             dv = S.exps_for(len(names), 2, rng, rng.choice([1, 2]))
             de = S.exps_for(len(names), 3 if len(names) == 1 else 2, rng, rng.choice([1, 2, 3]))
